@@ -17,8 +17,10 @@ theorem foldl_view (f : Key → Key) : ∀ (l : List Key) (v : List Key),
   | nil => intro v; rfl
   | cons a t ih =>
     intro v
-    simp only [List.reverse_cons, List.foldl_append, List.foldl_cons, List.foldl_nil, ih, view_cons,
-      List.map_cons, List.cons_append]
+    simp only [List.reverse_cons, List.foldl_append, List.foldl_cons, List.foldl_nil, List.map_cons,
+      List.cons_append]
+    rw [ih]
+    rfl
 
 theorem viewCaptureStream_eq (fuel : Nat) (st : Store) (v : List Key) (cb s : Key) :
     viewCaptureStream fuel st v cb s = (chain fuel st s).map fun streams => specOrder cb streams v := by
@@ -26,10 +28,10 @@ theorem viewCaptureStream_eq (fuel : Nat) (st : Store) (v : List Key) (cb s : Ke
   cases chain fuel st s with
   | none => rfl
   | some streams =>
-    simp only [Option.bind_eq_bind, Option.bind_some, Option.map_some, pure]
+    show some _ = some _
     have h1 := foldl_view (fun x => x) streams v
     have h2 := foldl_view (fun x => join cb x) streams (view (streams.map addSep ++ v) cb)
-    simp only at h1
+    congr 1
     rw [h1, h2]
     rfl
 
@@ -107,7 +109,7 @@ theorem isChain_head (st : Store) (s : Key) (l : List Key) (h : IsChain st s l) 
 
 theorem get_first (st : Store) : ∀ (v : List Key) (k : Key) (i : Nat) (hi : i < v.length) (val : Val),
     st.get (v[i] ++ k) = some val → (∀ j (hj : j < i), st.get (v[j]'(by omega) ++ k) = none) →
-    get st v k = some val := by
+    Telstate.get st v k = some val := by
   intro v
   induction v with
   | nil => intro k i hi; simp at hi
@@ -116,11 +118,11 @@ theorem get_first (st : Store) : ∀ (v : List Key) (k : Key) (i : Nat) (hi : i 
     cases i with
     | zero =>
       simp only [List.getElem_cons_zero] at hdef
-      simp [get, List.findSome?_cons, hdef]
+      simp [Telstate.get, hdef]
     | succ i =>
       have h0 := hnone 0 (by omega)
       simp only [List.getElem_cons_zero] at h0
-      simp only [get, List.findSome?_cons, h0]
+      simp only [Telstate.get, List.findSome?_cons, h0]
       simp only [List.getElem_cons_succ] at hdef
       apply ih k i (by simpa using hi) val hdef
       intro j hj
@@ -128,12 +130,12 @@ theorem get_first (st : Store) : ∀ (v : List Key) (k : Key) (i : Nat) (hi : i 
       simpa using this
 
 theorem get_none (st : Store) (v : List Key) (k : Key) :
-    get st v k = none ↔ ∀ p ∈ v, st.get (p ++ k) = none := by
-  simp [get, List.findSome?_eq_none_iff]
+    Telstate.get st v k = none ↔ ∀ p ∈ v, st.get (p ++ k) = none := by
+  simp [Telstate.get, List.findSome?_eq_none_iff]
 
-theorem get_some_mem (st : Store) (v : List Key) (k : Key) (val : Val) (h : get st v k = some val) :
+theorem get_some_mem (st : Store) (v : List Key) (k : Key) (val : Val) (h : Telstate.get st v k = some val) :
     ∃ p ∈ v, st.get (p ++ k) = some val := by
-  unfold get at h
+  unfold Telstate.get at h
   obtain ⟨p, hp, hv⟩ := List.exists_of_findSome?_eq_some h
   exact ⟨p, hp, hv⟩
 
@@ -147,7 +149,7 @@ theorem find_first {α} (q : α → Bool) : ∀ (l : List α) (i : Nat) (hi : i 
   | cons a t ih =>
     intro i hi hq hn
     cases i with
-    | zero => simp only [List.getElem_cons_zero] at hq; simp [List.find?_cons, hq]
+    | zero => simp only [List.getElem_cons_zero] at hq; simp [hq]
     | succ i =>
       have h0 := hn 0 (by omega)
       simp only [List.getElem_cons_zero] at h0
